@@ -3,6 +3,7 @@ mod fees;
 mod numeric;
 mod mk;
 mod deposits;
+mod select;
 
 fn main() {
     let argv: Vec<String> = std::env::args().collect();
@@ -16,6 +17,7 @@ fn main() {
         "fees" => fees::main(&a),
         "numeric" => numeric::main(&a),
         "deposits" => deposits::main(&a),
+        "select" => select::main(&a),
         d => {
             eprintln!("unknown driver {}", d);
             std::process::exit(2);
